@@ -932,7 +932,8 @@ func (cr *clRun) onFrame(fr *obsFrame) {
 			cr.frameMu.Unlock()
 			// C05/C18: a removed replica receives no further I/O
 			if !cr.present[addr] && !containsAddr(o.list, addr) {
-				cr.viol("C05", "io-sent-to-detached-replica", "op %d (%s): type-%d frame sent to %s which is not in the controller's replica list", o.idx, o.kind, t, addr)
+				// C05 ("it receives no further I/O") and C18 ("a removed replica receives no further calls") both own this
+				cr.viol(cr.c05or18(), "io-sent-to-detached-replica", "op %d (%s): type-%d frame sent to %s which is not in the controller's replica list", o.idx, o.kind, t, addr)
 			}
 			if t == tRead {
 				mode := modeOf(o.list, addr)
@@ -1897,6 +1898,13 @@ func (cr *clRun) settle() {
 	cr.pump(time.Millisecond, nil)
 }
 
+func (cr *clRun) c05or18() string {
+	if cr.s.Prop == "C18" {
+		return "C18"
+	}
+	return "C05"
+}
+
 // serves: rn's running process is the one the controller attached under addr.
 func (cr *clRun) serves(rn *repNode, addr string) bool {
 	if rn.addr != addr || !rn.up {
@@ -2075,6 +2083,10 @@ func (clustersim) Generate(rng *Rand, prop, tier string) *Script {
 			} else if x < 75 {
 				x = 60
 			}
+		case "C18":
+			if x < 30 {
+				x = 80 // a replica is removed through the API while the others stay: membership vs. who gets I/O
+			}
 		}
 		switch {
 		case x < 40:
@@ -2100,6 +2112,12 @@ func (clustersim) Generate(rng *Rand, prop, tier string) *Script {
 			add(Op{K: "revert", A: int64(rng.Intn(8))})
 		case x < 86:
 			add(Op{K: "rmrep", A: r})
+			if prop == "C18" {
+				for i, k := 0, rng.Range(1, 3); i < k; i++ {
+					genIO()
+				}
+				add(Op{K: "wait"})
+			}
 		case x < 92:
 			add(Op{K: "seterr", A: r})
 		case x < 96:
